@@ -254,7 +254,14 @@ def check_hashseed(case, res):
             res["failures"].append(cm.fail(f"C09:hashseed-dependent-layout:{k}", f"the {k} index table of the generated module depends on PYTHONHASHSEED", inp,
                                            {n: ta[k].get(n) for n in moved}, {n: tb[k].get(n) for n in moved}, detail))
         else:
-            res["failures"].append(cm.fail("C09:hashseed-dependent-output", "generated text depends on PYTHONHASHSEED (index tables equal)", inp,
+            # which kind of difference: the same lines in the same order whose tokens are merely permuted inside a line (operand order of
+            # a commutative operator chosen by the dependency's printer) - or anything else (statements reordered, different text)
+            import re as _re
+            la, lb = a["code"].splitlines(), b["code"].splitlines()
+            tok = lambda l: sorted(_re.findall(r"[A-Za-z_]\w*|\d+(?:\.\d+)?(?:[eE][-+]?\d+)?|\S", l))  # noqa: E731
+            within = len(la) == len(lb) and all(x == y or tok(x) == tok(y) for x, y in zip(la, lb))
+            kind = "operand-order-within-a-line" if within else "other"
+            res["failures"].append(cm.fail(f"C09:hashseed-dependent-output:{kind}", "generated text depends on PYTHONHASHSEED (index tables equal)", inp,
                                            cm.sha(a["code"]), cm.sha(b["code"]), detail))
 
 
